@@ -70,6 +70,17 @@ def new_world():
     w.nrender = {"rl": 0, "odf": 0}
     w.seq = 0
     app = nserve.Application()
+    # the world's clock is the only clock: wherever nserve (or a module-level cache of it) consults the time, it sees the one
+    # the queue server sees; module-level caches of nserve are part of the world and start empty
+    if hasattr(nserve, "time"):
+        nserve.time = w.clock
+    for name in dir(nserve):
+        obj = getattr(nserve, name)
+        if name.startswith("collid2") and hasattr(obj, "cache"):
+            try:
+                obj.cache.clear()
+            except Exception:
+                pass
     app.qserve = rpcclient.ServerProxy(rpc_client=InProc(w))
     w.app = app
     return w
